@@ -61,6 +61,7 @@ type c07Red struct {
 	Early int    `json:"early,omitempty"` // results written before consuming
 	Late  int    `json:"late,omitempty"`  // results written after consuming
 	A     string `json:"a,omitempty"`     // then: "" | cancel | cancelnil | panic
+	E     string `json:"e,omitempty"`     // error VALUE the reducer gives to cancel: the same family as c07Item.E ("" *c07Err | eof | wrap | val | unc | noout | wrapnoout | cwn | deadline)
 	WM    string `json:"wm,omitempty"`    // how the reducer calls Write: "" directly | rec (inside a function that recovers panics, RunSafe style) | go (from a helper goroutine of its own, which it waits for)
 	RV    string `json:"rv,omitempty"`    // the VALUE of the result written: "" struct{k} | nil | nilptr | zero | empty | false | err | noout | slice | map | func | ptr | big (see c07ResultValue)
 }
@@ -1239,7 +1240,7 @@ func c07NewRun(c c07Case) *c07Run {
 		c.magCap = time.Hour
 	}
 	r := &c07Run{c: c, mapped: map[int]int{}, written: map[any]int{}, seen: map[any]int{}, claimed: map[int]bool{},
-		redErr: &c07Err{src: "reducer"}}
+		redErr: c07ErrValue(c.Red.E, "reducer", 0)}
 	for i := range c.Items {
 		r.errs = append(r.errs, c07ErrValue(c.Items[i].E, "item", i))
 	}
@@ -1346,6 +1347,12 @@ func (r *c07Run) judge(res kit.BubbleResult) (v kit.Verdict) {
 	}
 	if c.Red.A == "cancelpanic" && c.hasReducer() {
 		cls["cancel-then-panic"] = true
+	}
+	if (c.Red.A == "cancel" || c.Red.A == "cancelpanic") && c.Red.E != "" && c.hasReducer() {
+		cls["reducer-cancel-error:"+c.Red.E] = true
+		if c.Entry == "void" {
+			cls["void-reducer-cancel-error:"+c.Red.E] = true
+		}
 	}
 	if c.Procs > 0 {
 		cls[fmt.Sprintf("gomaxprocs=%d", c.Procs)] = true
@@ -1775,6 +1782,16 @@ func (r *c07Run) disturbedOutcome(dist []c07Event, cls map[string]bool) string {
 	}
 	lt, le, _ := r.writes(first)
 	rret, hasRet := r.redret()
+	// "The reducer returned (without output) no later than the first disturbing event"
+	// explains an ErrReduceNoOutput / a nil of the void forms — unless the reducer itself
+	// cancelled before it returned: its return is then AFTER its own cancel in program
+	// order (same goroutine), whatever the virtual timestamps say, and "cancel(err) makes
+	// the call return that error".
+	for _, e := range dist {
+		if e.kind == "cancel" && e.src == "reducer" {
+			hasRet = false
+		}
+	}
 	outputFirst := le > 0 || (hasRet && rret <= first)
 	if !c.hasReducer() {
 		outputFirst = false
@@ -2046,6 +2063,11 @@ func c07Gen(zero bool) func(rt *rapid.T) c07Case {
 			}
 			if c.hasReducer() && rapid.IntRange(0, 3).Draw(rt, "ract") == 0 {
 				c.Red.A = rapid.SampledFrom([]string{"cancel", "cancelnil", "panic", "goexit", "cancelpanic"}).Draw(rt, "ra")
+				// every cancelling site draws from the same family of error values
+				if c.Red.A == "cancel" || c.Red.A == "cancelpanic" {
+					rekinds := []string{"noout", "", "eof", "wrapnoout", "wrap", "val", "unc", "noout", "cwn", "deadline"}
+					c.Red.E = rekinds[rapid.IntRange(0, len(rekinds)-1).Draw(rt, "re")]
+				}
 			}
 			if !fin && c.Entry != "chan" && rapid.IntRange(0, 7).Draw(rt, "gpanic") == 0 {
 				c.GenPanic = rapid.IntRange(0, n).Draw(rt, "gp")
